@@ -255,6 +255,76 @@ def run(chk: Check, eng: Engine) -> None:
                 chk.bad("R20-d", eng.relfile(ei), a.line, ei.fq, "a tree can enter the hold-back set without passing the acceptance test",
                         "an unsatisfying message can be sent as fallback", path=ecfg.describe_path(p), keyparts="holdback-unguarded")
 
+    # ---- R20-e ---------------------------------------------------------------
+    # the recorded history a new packet is mounted on is sealed before the generator / the search operators touch it
+    chk.rule("R20-e", "the history tree a new packet is mounted on is marked read-only on every path before the packet is generated onto it", floor=1)
+    iopm = eng.cls("fandango.evolution.population", "IoPopulationManager")
+    gpe = eng.method(iopm, "_generate_population_entry", inherited=False)
+    gcfg = eng.cfg(gpe)
+    colls = [n for n in gcfg.nodes if n.kind == "stmt" and isinstance(n.ast, ast.Assign) and isinstance(n.ast.value, ast.Call) and call_name(n.ast.value) == "collapse" and isinstance(n.ast.targets[0], ast.Name)]
+    if len(colls) != 1:
+        raise AnalysisError("_generate_population_entry: `tree = self._grammar.collapse(...)` not found")
+    hv = colls[0].ast.targets[0].id  # type: ignore[union-attr]
+    seals = [n.id for n in gcfg.nodes if n.kind == "stmt" and n.ast is not None and any(
+        isinstance(c, ast.Call) and call_name(c) == "set_all_read_only" and isinstance(c.func, ast.Attribute) and norm(c.func.value) == hv and c.args and isinstance(c.args[0], ast.Constant)
+        and c.args[0].value is True for c in ast.walk(n.ast))]
+    uses = [n for n in gcfg.nodes if n.kind == "stmt" and n.ast is not None and n.id != colls[0].id and (
+        any(isinstance(c, ast.Call) and call_name(c) == "fuzz" for c in ast.walk(n.ast)) or (isinstance(n.ast, ast.Return) and n.ast.value is not None and norm(n.ast.value) == hv))]
+    if not uses:
+        raise AnalysisError("_generate_population_entry: neither a fuzz call nor `return tree` found")
+    for u in uses:
+        p = gcfg.find_path(colls[0].id, [u.id], avoid=seals, ignore=("exc-out", "raise-out"))
+        if p is None and seals:
+            chk.ok("R20-e", gpe.fq, u.line, f"`{u.text()}` is reached only after `{hv}.set_all_read_only(True)`")
+        else:
+            chk.bad("R20-e", eng.relfile(gpe), u.line, gpe.fq, f"`{u.text()}` can be reached with the history `{hv}` still writable",
+                    "the forecaster rebuilds the history with fresh (writable) message roots: a repair aimed at an earlier, already exchanged message rewrites it, and "
+                    "Fandango continues the run against a conversation that never took place", path=gcfg.describe_path(p) if p else [], keyparts="history-unsealed")
+
+    # ---- R20-f ---------------------------------------------------------------
+    # the receive buffer is trimmed up to the fragment index stored with the accepted parse, not up to the scanning cursor
+    chk.rule("R20-f", "the receive buffer is cleared up to the fragment index recorded with the accepted parse (same entry as the returned tree)", floor=1)
+    pnr = eng.func("fandango.io.packetparser", "parse_next_remote_packet")
+    clears = [c for c in walk_local(pnr.node) if isinstance(c, ast.Call) and call_name(c) == "clear_by_party"]
+    if not clears:
+        raise AnalysisError("parse_next_remote_packet: clear_by_party call not found")
+    # the table of complete parses: the dict whose values are (fragment index, tree) pairs
+    tables = {t.target.id for t in walk_local(pnr.node) if isinstance(t, ast.AnnAssign) and isinstance(t.target, ast.Name) and "tuple[int" in norm(t.annotation)}
+    if len(tables) != 1:
+        raise AnalysisError(f"parse_next_remote_packet: table of complete parses not recognised ({sorted(tables)})")
+    table = next(iter(tables))
+    bound: set[str] = set()
+    for n in walk_local(pnr.node):
+        if isinstance(n, (ast.For, ast.comprehension)) and table in names_in(n.iter):
+            bound |= {x.id for x in ast.walk(n.target) if isinstance(x, ast.Name)}
+        if isinstance(n, ast.Assign) and table in names_in(n.value):
+            for t in n.targets:
+                bound |= {x.id for x in ast.walk(t) if isinstance(x, ast.Name)}
+    bound.discard(table)
+
+    def depends(name: str, seen: set[str]) -> bool:
+        if name in bound:
+            return True
+        if name in seen:
+            return False
+        seen.add(name)
+        for a in walk_local(pnr.node):
+            if isinstance(a, ast.Assign) and any(isinstance(t, ast.Name) and t.id == name for t in a.targets):
+                if any(depends(x, seen) for x in names_in(a.value)):
+                    return True
+        return False
+
+    for c in clears:
+        idx = c.args[1] if len(c.args) > 1 else get_kwarg(c, "to_idx")
+        if idx is None:
+            raise AnalysisError("clear_by_party: index argument not found")
+        if any(depends(x, set()) for x in names_in(idx)):
+            chk.ok("R20-f", pnr.fq, c.lineno, f"`{short(c)}`: the index derives from the entries of `{table}`")
+        else:
+            chk.bad("R20-f", eng.relfile(pnr), c.lineno, pnr.fq, f"`{short(c)}` clears up to `{short(idx)}`, which does not come from the accepted entry of `{table}`",
+                    "a longer candidate keeps consuming fragments after the accepted packet was complete: those fragments are the beginning of the remote's next message "
+                    "and are deleted with it", keyparts="clear-index-not-from-accepted-parse")
+
 
 # ------------------------------------------------------------------ self-test variants
 from ..mutants import M  # noqa: E402
@@ -263,6 +333,8 @@ _IO = "src/fandango/io/__init__.py"
 _ALG = "src/fandango/evolution/algorithm.py"
 _EV = "src/fandango/evolution/evaluation.py"
 MUTANTS = [
+    M("history-not-sealed", "src/fandango/evolution/population.py", "        tree.set_all_read_only(True)\n        dummy = DerivationTree(NonTerminal(\"<hookin>\"))\n", "        dummy = DerivationTree(NonTerminal(\"<hookin>\"))\n", "R20-e"),
+    M("buffer-cleared-to-cursor", "src/fandango/io/packetparser.py", "    io_instance.clear_by_party(msg_sender, max_parse_idx)\n", "    io_instance.clear_by_party(msg_sender, current_fragment_idx)\n", "R20-f"),
     M("received-msg-unlocked", _IO, "        with self.receive_lock:\n            return len(self.receive) != 0", "        return len(self.receive) != 0", "R20-a"),
     M("clear-by-party-unlocked", _IO, "        with self.receive_lock:\n            self.receive = [\n                (sender, receiver, msg)", "        if True:\n            self.receive = [\n                (sender, receiver, msg)", "R20-a"),
     M("add-receive-lock-per-fragment", _IO, "        with self.receive_lock:\n            if isinstance(message, bytes):\n                for fragment_int in message:\n                    self.receive.append((sender, receiver, bytes([fragment_int])))",
@@ -276,5 +348,7 @@ MUTANTS = [
       more=(("        if fitness >= self._expected_fitness:\n            if msg is None:", "        if True:\n            if msg is None:"),)),
 ]
 TWINS = [
+    M("twin-longest-parse-by-max", "src/fandango/io/packetparser.py", "    max_parse_idx = -1\n    best_parse_tree = None\n    best_non_terminal = None\n    for non_terminal, (parse_idx, parse_tree) in complete_parses.items():\n        if max_parse_idx < parse_idx:\n            max_parse_idx = parse_idx\n            best_parse_tree = parse_tree\n            best_non_terminal = non_terminal\n\n    assert best_non_terminal is not None\n",
+      "    best_non_terminal, (max_parse_idx, best_parse_tree) = max(\n        complete_parses.items(), key=lambda entry: entry[1][0]\n    )\n", None),
     M("twin-lock-alias", _IO, "        with self.receive_lock:\n            return list(self.receive)", "        with self.receive_lock:\n            snapshot = list(self.receive)\n            return snapshot", None),
 ]
